@@ -390,6 +390,10 @@ def _fin_items(lst, c, in_body):
             it["params"] = _num(it["params"], c)
             if dup and c.n % 3 == 0 and c.last.get("func-params") is not None:
                 it["params"] = list(c.last["func-params"])      # a redefinition with the identical parameter list
+            if c.n % 9 == 4:
+                # a signature far wider than any line-folding threshold; the quoted form also holds runs of blanks
+                it["params"] = it["params"] + [("wide_parameter_%d_" % c.next() + "x" * 110) if c.n % 2 else
+                                               ('"wide  quoted   parameter %d ' % c.next() + "y  " * 40 + '"')]
             c.last["func-params"] = list(it["params"])
             if dup and c.defs and c.defs[-1]["doc"] is None and c.n % 2 == 0:
                 # the "run once" idiom: a nested definition that repeats its (undocumented) enclosing definition exactly
